@@ -219,7 +219,7 @@ void harness(void) { vp_one = 1; g_sc = nondet_int(); vp_in_sc = g_sc; obj_value
 def passthrough_writer(ordinal, which):
     """SolutionWriterImpl::HandleSolution: the SolutionAdapter handed to the .sol writer carries the status it was given, one value per
     variable / per algebraic constraint (or none when the vector is absent) and the objective number that was used"""
-    parts = [PRELUDE, '''
+    parts = [PRELUDE, ENUM, '''
 int g_nv, g_nc, g_objno_used;
 int builder_num_vars(void) { return g_nv; }
 int builder_num_algebraic_cons(void) { return g_nc; }
@@ -234,7 +234,7 @@ static struct AR MakeArrayRef(const double *p, long n) { struct AR r; r.p = p; r
 static void vp_SolutionAdapter(int status, int builder, const char *msg, int options, struct AR values, struct AR duals, int objno) {
   g_made++; g_a_status = status; g_a_values = values.p; g_a_nvalues = (int)values.n; g_a_duals = duals.p; g_a_nduals = (int)duals.n; g_a_objno = objno; }
 ''',
-             Fn(SOLIO, r'SolutionAdapter<PB> sol\(\s*status, &builder_,', 'void vp_make_adapter(int status, const char *message, const double *values, const double *dual_values)',
+             Fn(SOLIO, r'SolutionAdapter<PB> sol\(', 'void vp_make_adapter(int status, const char *message, const double *values, const double *dual_values)',
                 block_end=r'solver_\.\w+\(\)\);',
                 contract='__CPROVER_requires(g_made == 0 && g_nv >= 0 && g_nc >= 0) '
                          '__CPROVER_ensures(g_made == 1 && g_a_status == status && g_a_objno == g_objno_used) '
@@ -315,7 +315,33 @@ def make_replay(name):
     return replay
 
 
+_pdrv = [None]
+
+
+def replay_passthrough(lead, inputs, obs):
+    import subprocess
+    from vp import native
+    if _pdrv[0] is None:
+        _pdrv[0] = native.build_driver('c10_passthrough_replay.cc', 'c10_passthrough_replay', native.MP_SOURCES, ['-O0'])[0]
+    import tempfile
+    d = tempfile.mkdtemp(prefix='c10pt_')
+    try:
+        p = subprocess.run([_pdrv[0]], capture_output=True, text=True, timeout=600, cwd=d)
+    finally:
+        import shutil
+        shutil.rmtree(d, ignore_errors=True)
+    return p.returncode != 0, (p.stdout + p.stderr)[-2000:], _pdrv[0]
+
+
 def harnesses(tier, seed):
+    hs = _harnesses(tier, seed)
+    for h in hs:
+        if 'passthrough' in h.name and h.replay is None:
+            h.replay = replay_passthrough
+    return hs
+
+
+def _harnesses(tier, seed):
     hs = [pred_harness(n) for n in PREDS]
     hs.append(retrieved_harness())
     hs.append(enum_harness())
